@@ -627,6 +627,9 @@ class Interp:
             if not has_sym(args) and not has_sym(tuple(kw.values())):
                 return self.models.native_call(self, f, args, kw)
             raise Unsupported("function outside /repo with symbolic args: " + qn)
+        code = f.__code__
+        if code.co_filename == '<string>' and code.co_names == () and code.co_consts == (None,) and len(code.co_code) <= 8:
+            return None       # functions made by exec("def f(s): pass")
         node, fn = function_ast(f)
         if self.mutate and qn in self.mutate:
             node = self.mutate[qn]
